@@ -2,7 +2,11 @@
    Property theorems only; each is closed by `exact`, followed by Print Assumptions.
    Quantification: every request sequence, every accept/decline pattern of the predict hook
    (r_hook), every train_step (Z), every train() oracle, every starting state (so also
-   sequences interleaved with user calls of train() or changes of train_step). *)
+   sequences interleaved with user calls of train() or changes of train_step, and sequences
+   that start after the training set was seeded by read_from_data_store(), where
+   |x_data| <> eval_counter).  The session theorems at the end say that each request of a
+   session (requests interleaved with read_from_data_store(), train(), assignments of
+   train_step / trained / problem.surrogate) is one such step. *)
 From Coq Require Import List ZArith Bool.
 From Artap Require Import Model.Surrogate Proofs.SurrogateProofs.
 Import ListNotations.
@@ -34,6 +38,18 @@ Section C19.
     x_data s' = x_data s /\ y_data s' = y_data s /\ train_log s' = train_log s /\
     hook_log s' = hook_log s /\ trained s' = trained s.
   Proof. exact passthrough_exact. Qed.
+
+  (* read_from_data_store(): (vector, costs) of every individual stored with the problem is
+     appended, in order (also of individuals that were never evaluated: Model/Surrogate.v);
+     counters, `trained` and all call logs are untouched - nothing is evaluated, counted or
+     trained, so afterwards |x_data| and eval_counter differ by the number of seeded individuals *)
+  Theorem C19_read_from_data_store : forall (inds : list (V * C)) (s : state),
+    let s' := read_from_data_store s inds in
+    x_data s' = x_data s ++ map fst inds /\ y_data s' = y_data s ++ map snd inds /\
+    eval_counter s' = eval_counter s /\ predict_counter s' = predict_counter s /\
+    trained s' = trained s /\ train_log s' = train_log s /\ obj_log s' = obj_log s /\
+    hook_log s' = hook_log s.
+  Proof. exact read_from_data_store_spec. Qed.
 
   Section Predicting.
     Variable train_step : Z.
@@ -146,7 +162,84 @@ Section C19.
        combine (x_data s') (y_data s') =
          map (fun r => (r_vec r, r_true r)) (evaluated reqs (snd (run step s reqs)))).
     Proof. exact (data_aligned train_step has_hook train_out). Qed.
+
+    (* a user call of train() between requests: only the train log and `trained` change *)
+    Theorem C19_user_train : forall (s : state),
+      let s' := do_train train_out s in
+      train_log s' = train_log s ++ [(eval_counter s, length (x_data s), length (y_data s))] /\
+      trained s' = train_out (length (train_log s)) /\
+      eval_counter s' = eval_counter s /\ predict_counter s' = predict_counter s /\
+      x_data s' = x_data s /\ y_data s' = y_data s /\ obj_log s' = obj_log s /\ hook_log s' = hook_log s.
+    Proof. exact (user_train_spec train_out). Qed.
+
+    (* nothing the wrapper decides depends on the training set or on its size: from two states
+       with the same `trained`, counters and train-call counters (whatever x_data / y_data are)
+       every request sequence gets the same answers and leads to states that again agree *)
+    Theorem C19_decisions_independent_of_training_set : forall (reqs : list req) (a b : state),
+      same_accounting a b ->
+      snd (run step a reqs) = snd (run step b reqs) /\
+      same_accounting (fst (run step a reqs)) (fst (run step b reqs)).
+    Proof. exact (run_same_accounting train_step has_hook train_out). Qed.
+
+    (* in particular seeding: the model is retrained at every train_step-th TRUE EVALUATION counted
+       by eval_counter - not at multiples of the training-set size *)
+    Theorem C19_seeding_changes_only_training_set : forall (inds : list (V * C)) (reqs : list req) (s : state),
+      let a := run step (read_from_data_store s inds) reqs in
+      let b := run step s reqs in
+      snd a = snd b /\
+      trained (fst a) = trained (fst b) /\ eval_counter (fst a) = eval_counter (fst b) /\
+      predict_counter (fst a) = predict_counter (fst b) /\
+      map cnt_of (train_log (fst a)) = map cnt_of (train_log (fst b)) /\
+      map cnt_of (train_log (fst a)) =
+        map cnt_of (train_log s) ++
+        filter fires (seq (S (eval_counter s)) (eval_counter (fst a) - eval_counter s)) /\
+      x_data (fst a) = x_data s ++ map fst inds ++ map r_vec (evaluated reqs (snd a)) /\
+      y_data (fst a) = y_data s ++ map snd inds ++ map r_true (evaluated reqs (snd a)).
+    Proof. exact (seeding_changes_only_training_set train_step has_hook train_out). Qed.
   End Predicting.
+
+  (* ---------------------------------------------------------------- sessions *)
+  Section Sessions.
+    Variable has_hook : bool.
+    Notation wrapper := (wrapper V C).
+    Notation event := (event V C).
+    Notation session := (session V C).
+
+    (* an event other than the assignment of problem.surrogate acts on the wrapper that is
+       problem.surrogate as wrapper_event says; every other wrapper object is untouched *)
+    Theorem C19_session_event_current : forall (ss : session) (e : event) (w : wrapper),
+      is_use e = false -> nth_error (slots ss) (cur ss) = Some w ->
+      let ss' := fst (session_event has_hook ss e) in
+      cur ss' = cur ss /\ length (slots ss') = length (slots ss) /\
+      nth_error (slots ss') (cur ss) = Some (fst (wrapper_event has_hook w e)) /\
+      snd (session_event has_hook ss e) = snd (wrapper_event has_hook w e) /\
+      (forall j, j <> cur ss -> nth_error (slots ss') j = nth_error (slots ss) j).
+    Proof. exact (session_event_current has_hook). Qed.
+
+    Theorem C19_session_use : forall (ss : session) (k : nat),
+      let ss' := fst (session_event has_hook ss (EUse k)) in
+      slots ss' = slots ss /\ snd (session_event has_hook ss (EUse k)) = None /\
+      (k < length (slots ss) -> cur ss' = k).
+    Proof. exact (session_use has_hook). Qed.
+
+    (* a request in a session is one step (of the theorems above) with the wrapper's current
+       train_step and train() oracle, from the wrapper's current state - whatever happened before *)
+    Theorem C19_session_request : forall (w : wrapper) (r : req),
+      let res := wrapper_event has_hook w (EReq r) in
+      let st := if w_pass w then passthrough_evaluate (w_st w) r
+                else predict_evaluate (w_ts w) has_hook (w_tape w) (w_st w) r in
+      w_st (fst res) = fst st /\ snd res = Some (snd st) /\
+      w_pass (fst res) = w_pass w /\ w_ts (fst res) = w_ts w /\ w_tape (fst res) = w_tape w.
+    Proof. exact (wrapper_request has_hook). Qed.
+
+    Theorem C19_session_other_events : forall (w : wrapper),
+      (forall inds, fst (wrapper_event has_hook w (ESeed inds)) = with_st w (read_from_data_store (w_st w) inds)) /\
+      (fst (wrapper_event has_hook w ETrain) = if w_pass w then w else with_st w (do_train (w_tape w) (w_st w))) /\
+      (forall ts, let w' := fst (wrapper_event has_hook w (ESetStep ts)) in
+                  w_ts w' = ts /\ w_st w' = w_st w /\ w_pass w' = w_pass w /\ w_tape w' = w_tape w) /\
+      (forall b, fst (wrapper_event has_hook w (ESetTrained b)) = with_st w (set_trained (w_st w) b)).
+    Proof. exact (wrapper_other_events has_hook). Qed.
+  End Sessions.
 End C19.
 
 Print Assumptions C19_sequence_is_steps.
@@ -161,6 +254,14 @@ Print Assumptions C19_sequence_accounting.
 Print Assumptions C19_sequence_answers.
 Print Assumptions C19_counters_add_up.
 Print Assumptions C19_data_aligned.
+Print Assumptions C19_read_from_data_store.
+Print Assumptions C19_user_train.
+Print Assumptions C19_decisions_independent_of_training_set.
+Print Assumptions C19_seeding_changes_only_training_set.
+Print Assumptions C19_session_event_current.
+Print Assumptions C19_session_use.
+Print Assumptions C19_session_request.
+Print Assumptions C19_session_other_events.
 
 (* non-vacuity: a mixed sequence (train_step 2, hook present, train() succeeds) in which the
    first two requests are evaluated (the second one trains), the third is predicted, the hook
@@ -189,4 +290,40 @@ Example C19_ex_minus_one_and_zero :
   snd (run (predict_evaluate 0%Z true (fun _ => true)) (init false) ex_reqs)
     = [(KEval, Raised); (KEval, Raised); (KEval, Raised); (KEval, Raised); (KEval, Raised)] /\
   eval_counter (fst (run (predict_evaluate 0%Z true (fun _ => true)) (init false) ex_reqs)) = 5.
+Proof. vm_compute. repeat split. Qed.
+
+(* seeded start (the red-team scenario): three earlier individuals are copied into the training
+   set - one of them never evaluated, so its cost entry is the placeholder 0 here, [] in Python -
+   then seven requests with train_step 5 and a declining hook.  train() runs at the 5th TRUE
+   evaluation (|x_data| = 8 there), not when |x_data| reaches 5 or 10. *)
+Definition ex_seed : list (nat * nat) := [(101, 11); (102, 0); (103, 13)].
+Definition ex_reqs7 : list (req nat nat) :=
+  map (fun k => {| r_vec := k; r_hook := None; r_true := 10 * k |}) [1; 2; 3; 4; 5; 6; 7].
+
+Example C19_ex_seeded :
+  let s0 := read_from_data_store (init false) ex_seed in
+  let res := run (predict_evaluate 5%Z true (fun _ => true)) s0 ex_reqs7 in
+  eval_counter s0 = 0 /\ length (x_data s0) = 3 /\ y_data s0 = [11; 0; 13] /\
+  train_log (fst res) = [(5, 8, 8)] /\ eval_counter (fst res) = 7 /\ predict_counter (fst res) = 0 /\
+  x_data (fst res) = [101; 102; 103; 1; 2; 3; 4; 5; 6; 7] /\
+  map snd (snd res) = map (fun k => Ret (10 * k)) [1; 2; 3; 4; 5; 6; 7].
+Proof. vm_compute. repeat split. Qed.
+
+(* a session: two requests on the pass-through wrapper, then a predicting wrapper (train_step 3)
+   is assigned and seeded, a user call of train() makes it trained at eval_counter 2, a
+   prediction, train_step changed to 2 (so the 4th evaluation trains), a detour over the
+   pass-through wrapper, whose state was kept *)
+Example C19_ex_session :
+  let w0 := {| w_pass := true; w_ts := (-1)%Z; w_tape := fun _ => true; w_st := init true |} in
+  let w1 := {| w_pass := false; w_ts := 3%Z; w_tape := fun _ => true; w_st := init false |} in
+  let R := fun k h => EReq {| r_vec := k; r_hook := h; r_true := 10 * k |} in
+  let es := [R 1 None; R 2 None; EUse 1; ESeed ex_seed; R 3 None; R 4 None; ETrain; R 5 (Some 77);
+             ESetStep 2%Z; R 6 None; EUse 0; R 7 (Some 78); EUse 1; R 8 None] in
+  let res := session_run true {| cur := 0; slots := [w0; w1] |} es in
+  map (option_map snd) (snd res) =
+    [Some (Ret 10); Some (Ret 20); None; None; Some (Ret 30); Some (Ret 40); None; Some (Ret 77);
+     None; Some (Ret 60); None; Some (Ret 70); None; Some (Ret 80)] /\
+  map (fun w => (eval_counter (w_st w), predict_counter (w_st w), length (x_data (w_st w))))
+      (slots (fst res)) = [(3, 0, 0); (4, 1, 7)] /\
+  map (fun w => train_log (w_st w)) (slots (fst res)) = [[]; [(2, 5, 5); (4, 7, 7)]].
 Proof. vm_compute. repeat split. Qed.
